@@ -9,11 +9,12 @@ RULE = ("one case = one operation line: enc <packet> (EncodeTo), dec <max> <byte
         "<packet> (paho encodes, broker decodes), conc <g> <rounds> <size> (g goroutines encode their own PUBLISH concurrently into writers that take the frame in two halves; every frame must be the sequential encoding). Packet values hit every type, flag combination, QoS 0-2 incl. will QoS, "
         "lengths around 0, 127/128, 16383/16384 and the 64 KiB buffer limit. non-trivial = distinct line whose "
         "implementation answer is not 'err'")
-TRUSTED = ["github.com/eclipse/paho.mqtt.golang/packets as the independent MQTT 3.1.1 implementation (reference side of refdec/refenc)",
+TRUSTED = ["lean/Emitter/Spec/Mqtt.lean as the transcription of the OASIS MQTT 3.1.1 standard (own packet type, encoder, strict parser; every rule cites its section) — the S column of enc / refdec / refenc / dec",
+           "github.com/eclipse/paho.mqtt.golang/packets as the independent MQTT 3.1.1 implementation (reference side of refdec/refenc)",
            "sync.Pool buffer reuse in EncodeTo is modelled as a fresh 64 KiB buffer (aliasing between concurrent encoders is sampled by the conc lines and by C10)"]
 ASSUMPTIONS = ["bufio.Reader / io.ReadFull deliver the stream bytes in order"]
 CLAIM = {
-    "text": "Lean 4 theorems over the executable model of EncodeTo/DecodePacket for all 14 packet types: remaining-length round trip for every n < 2^28 across the 1/2/3/4-byte boundaries, string/uint16 field round trips, decode∘encode = id on well-formed packets of the types the broker emits and receives, decoder totality (ok | err | panic classified). Tied to /repo by regenerated constants (type codes, header and buffer sizes) and a differential run of the real codec against the compiled model, cross-checked in both directions with paho.mqtt.golang.",
+    "text": "Lean 4 theorems over the executable model of EncodeTo/DecodePacket for all 14 packet types: remaining-length round trip for every n < 2^28 across the 1/2/3/4-byte boundaries, string/uint16 field round trips, decode∘encode = id on well-formed packets of the types the broker emits and receives, decoder totality (ok | err | panic classified); conformance to an independent Lean specification of the MQTT 3.1.1 wire format written from the OASIS standard (Spec/Mqtt.lean): for every packet value of all 14 types that denotes a valid standard packet EncodeTo writes exactly the prescribed bytes (encode_conforms), DecodePacket returns exactly the packet for every prescribed byte string and for every valid standard packet within the size limit (decode_conforms, decode_standard_packet), the specification's parser inverts its encoder (spec_roundtrip), the remaining-length table of the standard equals the digit loop below 2^28 and the two readers agree on every 1-4 byte field; the codec's deviations from the standard (it never validates) are exhibited as *_deviation theorems on literal bytes. Tied to /repo by regenerated constants (type codes, header and buffer sizes) and a differential run of the real codec against the compiled model, cross-checked in both directions with paho.mqtt.golang.",
     "note": "Trusted: Lean kernel; correspondence harness; paho as reference codec; the pooled buffer is modelled as fresh per call.",
     "technique": "Lean 4 proof (codec round-trip theorems by induction) + differential correspondence check model vs. real Go code vs. paho reference codec",
 }
